@@ -58,6 +58,10 @@ CLAIMED = {
     text="(R1) http::repl returns a response only behind state == CONTENT, tested after http_parse consumed the whole segment; (R2) the request parser is extracted from MIR as a finite automaton by evaluating the loop body for every reachable state and all 256 byte values (14 states x 256 = 3584 transitions): every transition is decided, only the current byte is read (pure fold), FAIL and CONTENT are absorbing; (R5) language-level decision on the product of that automaton with two reference automata written from the statement: every request of the grammar (target, HTTP/d+.d+, CRLF or bare LF, name:value lines, empty line) reaches CONTENT, and nothing outside the most lenient reading of request-line/header-line/empty-line does - so malformed or unterminated requests are never answered, for all byte strings; (R3) the response template starts with HTTP/1.1 401, has WWW-Authenticate, an empty line before the body, Content-Length = len() of exactly the body value, nothing after the body; (R4) HTTP_VERBS has nine entries and feeds both matchers.",
     note="Not decided: that the run-time compiled method matcher (HTTP_SMACK) accepts exactly the nine methods (the FSM is analysed from the state after the method). std is_ascii_digit is modelled from its documentation.",
     technique="FSM extraction by exhaustive partial evaluation of MIR + automata inclusion against reference automata + format-template decoding", ref="§4 C13"),
+ 'C18': dict(
+    text="SSH: the banner parser is extracted from MIR as a finite automaton over (state, prev_state) by evaluating the loop body for all reachable states x 256 bytes (15 states, one-byte push-back after a lone CR included); it is a pure fold, EOB and FAIL are absorbing, and on the product with two reference automata written from the statement every identification 'SSH-' [0-9.]+ '-' software [SP comment] CR LF (lone CR allowed inside software/comment) reaches EOB while nothing that is not 'SSH-' [0-9.]* '-' ... CR LF does; ssh::repl answers exactly the constant SSH-2.0-1 CR LF and only behind state == EOB of the state parsed from this payload. Gh0st: reply = magic ++ LE32(len(compressed)+len(magic)+8) ++ LE32(len of the buffer fed to the encoder) ++ encoder output, by provenance of the two length counters, their (x % 256, x /= 256) x4 emission loops and the order of appends.",
+    note="flate2 producing a stream that inflates to its input is trusted. The SSH-2.0/SSH-1.99 prefix requirement is the dispatcher signature (C10).",
+    technique="FSM extraction by exhaustive partial evaluation of MIR + automata inclusion + provenance", ref="§4 C18"),
 }
 
 NOT_YET = {}
